@@ -171,4 +171,13 @@ PROPS = {
         "assumptions": ["as C02"],
         "trusted_base": ["modelled: fetch_header / fetch_transaction status, FetchInfo transitions, fetch_headers_txs assignment, remove_peer"],
     },
+    "C18": {
+        "ops": [("c18", "RunC18", {"quick": 80, "thorough": 2000})],
+        "rule": "send_transaction through the real RPC implementation with real script execution (always-success cell as code dep, funding cells fetched earlier): valid "
+                "transactions, chains spending pending outputs, byte-identical re-submissions, and one mutation each of a valid one (outputs exceed inputs, capacity below "
+                "occupied, duplicate / unknown / out-of-range input, unknown or missing code dep, immature since, no outputs); pool limits 2..5; peers opening the relay "
+                "protocol (announcements) and GetRelayTransactions; per-event results and the final pool (cycles, peers announced to) compared with Model/Pending.v",
+        "assumptions": ["verify_tx's verdict (ckb-verification, ckb-script, ckb-vm) is an oracle input of the model; the harness' expected verdicts are by construction of each mutation"],
+        "trusted_base": ["modelled: PendingTxs::{push, get, fetch_transaction_hashes_for_broadcast}, send_transaction admission, RelayProtocol::connected, GetRelayTransactions"],
+    },
 }
